@@ -87,8 +87,10 @@ type c18Tracker struct {
 
 type c18TrackerStream struct{ t *c18Tracker }
 
-func (s c18TrackerStream) Write(p []byte) (int, error) { return 0, errors.New("harness: tracker is read-only") }
-func (s c18TrackerStream) Close() error                { return nil }
+func (s c18TrackerStream) Write(p []byte) (int, error) {
+	return 0, errors.New("harness: tracker is read-only")
+}
+func (s c18TrackerStream) Close() error { return nil }
 func (s c18TrackerStream) Read(p []byte) (int, error) {
 	t := s.t
 	t.mu.Lock()
@@ -209,6 +211,9 @@ func (c *c18WireConn) wrap(s transfer.Stream) transfer.Stream {
 	} else {
 		c.x.recvCtl = ws
 	}
+	if c.x.cfg.Stall != nil {
+		return newC18StallLink(c.x, c.side, ws)
+	}
 	return ws
 }
 
@@ -317,20 +322,21 @@ func (s *c18WireStream) writePattern() (mids, splits int) {
 // ---------------------------------------------------------------- one transfer
 
 type c18WireCfg struct {
-	Index     int    `json:"index"`
-	Transport string `json:"transport"`
-	P         int    `json:"parallel_files"`
-	Files     int    `json:"files"`
-	ChunkSize uint32 `json:"chunk_size"`
-	Resume    bool   `json:"resume"`
-	SmallThr  int64  `json:"small_threshold"` // 0 = the default (4 MiB: small files are activated one at a time)
-	Hold      string `json:"hold"`            // none | first | every-2 | every-3 | all
-	ShortUs   int    `json:"short_hold_us"`
-	Park      bool   `json:"park_fileend_writers"`
-	Large     bool   `json:"large_fields"`    // paths of 511..1024 bytes, a file of more than 4088 chunks (bitmap >= 512 bytes)
-	Partial   bool   `json:"partial_sidecar"` // large_fields: the many-chunk file is resumed from a partial sidecar in the output directory
-	NoLong    bool   `json:"no_long_paths"`   // large_fields: only the many-chunk file (what the receiver writes is judged behind a sender stream without large fields)
-	Seed      uint64 `json:"seed"`
+	Index     int           `json:"index"`
+	Transport string        `json:"transport"`
+	P         int           `json:"parallel_files"`
+	Files     int           `json:"files"`
+	ChunkSize uint32        `json:"chunk_size"`
+	Resume    bool          `json:"resume"`
+	SmallThr  int64         `json:"small_threshold"` // 0 = the default (4 MiB: small files are activated one at a time)
+	Hold      string        `json:"hold"`            // none | first | every-2 | every-3 | all
+	ShortUs   int           `json:"short_hold_us"`
+	Park      bool          `json:"park_fileend_writers"`
+	Large     bool          `json:"large_fields"`    // paths of 511..1024 bytes, a file of more than 4088 chunks (bitmap >= 512 bytes)
+	Partial   bool          `json:"partial_sidecar"` // large_fields: the many-chunk file is resumed from a partial sidecar in the output directory
+	NoLong    bool          `json:"no_long_paths"`   // large_fields: only the many-chunk file (what the receiver writes is judged behind a sender stream without large fields)
+	Seed      uint64        `json:"seed"`
+	Stall     *c18StallSpec `json:"stalled_delivery,omitempty"` // stage reader-stall (c18stall.go): what each side READS arrives through a buffering, deadline-capable link that goes silent inside records
 }
 
 func (c c18WireCfg) class() string {
@@ -368,10 +374,12 @@ type c18WireXfer struct {
 	keys       map[uint64]manifest.FileItem
 	sendCtl    *c18WireStream
 	recvCtl    *c18WireStream
+	sendLink   *c18StallLink // stage reader-stall: the link through which the sender / the receiver reads its control stream
+	recvLink   *c18StallLink
 	sendTr     atomic.Pointer[c18Tracker]
 	done       chan struct{}
-	partKey    uint64 // large_fields + partial_sidecar: key of the file resumed from a sidecar the harness wrote ...
-	partBitmap []byte // ... and the bitmap of that sidecar
+	partKey    uint64       // large_fields + partial_sidecar: key of the file resumed from a sidecar the harness wrote ...
+	partBitmap []byte       // ... and the bitmap of that sidecar
 	partLoaded atomic.Int64 // chunks the receiver found marked when it built the first FileResumeInfo of that file (Options.ResumeStatsFn); -1 = not announced
 
 	mu        sync.Mutex
@@ -511,8 +519,9 @@ type c18WireResult struct {
 	ParksCap     int64
 	MaxActive    int
 	Files        int
-	Mids         int // Writes of the sender's stream that ended inside a record
-	Splits       int // records of the sender's stream written in several Writes
+	Mids         int          // Writes of the sender's stream that ended inside a record
+	Splits       int          // records of the sender's stream written in several Writes
+	Stall        *c18StallObs // stage reader-stall: what the two links did and saw
 }
 
 func c18WireGenCfg(tier string, seed uint64, i int) c18WireCfg {
@@ -889,6 +898,9 @@ func c18WireRun(work string, cfg c18WireCfg, lp *vk.ListenerPool) *c18WireResult
 		return res
 	}
 	c18WireJudge(x, res)
+	if cfg.Stall != nil {
+		res.Stall = c18StallCollect(x)
+	}
 	return res
 }
 
@@ -901,7 +913,9 @@ type c18WireRec struct {
 	End int
 }
 
-func c18WireIsEOF(err error) bool { return errors.Is(err, io.EOF) || errors.Is(err, io.ErrUnexpectedEOF) }
+func c18WireIsEOF(err error) bool {
+	return errors.Is(err, io.EOF) || errors.Is(err, io.ErrUnexpectedEOF)
+}
 
 // c18WireDecode decodes a recording. tornOK: a Write of the stream failed at failOff, so the record that
 // was being written there may be cut short (only the bytes before failOff are judged).
@@ -1245,12 +1259,12 @@ func runC18Wire(e *Env) {
 	})
 
 	type agg struct {
-		Transfers, BothOK, Failed, Setup, Watchdog            int
+		Transfers, BothOK, Failed, Setup, Watchdog                  int
 		Holds, HoldsDue, HoldsForeign, Parks, ParksByHold, ParksCap int64
-		SeveralActive                                         int
-		Bytes, Calls                                          int
-		Large, LargeBothOK                                    int
-		WritesEndedInsideARecord, RecordsSplitOverWrites      int64
+		SeveralActive                                               int
+		Bytes, Calls                                                int
+		Large, LargeBothOK                                          int
+		WritesEndedInsideARecord, RecordsSplitOverWrites            int64
 	}
 	var a agg
 	kinds := map[string]int{}
